@@ -350,7 +350,7 @@ def gen_plan(rng, tier):
         r = rng.random()
         if r < 0.3:
             unit = rng.choice(UNITS)
-            m = rng.choice(["floor", "ceil", "round", "offset"])
+            m = rng.choice(["floor", "ceil", "round", "offset", "call", "doy"])
             op = ["iv", unit, m, pick.dt()]
             if m == "offset":
                 op.append(rng.choice([1, 1, 2, 3, 5, 12, 0]))
@@ -436,6 +436,10 @@ def _exec_op(op, stats, all_dts):
         iv = d3_time[unit]
         if m == "offset":
             res = iv.offset(d, op[4])
+        elif m == "call":
+            res = iv(d)
+        elif m == "doy":
+            return [d3_time["dayOfYear"](d), d3_time["week"]._number(d)]
         else:
             res = getattr(iv, m)(d)
         all_dts.append(("out", res))
